@@ -123,6 +123,47 @@ let oracle_rt_net cfg li a l1 l2 fail =
     end
   end
 
+(* ---------------- several events in one network (op rt_netm) ---------------- *)
+let op_rt_netm _ = emit "rtm done"
+
+(* per EVENT the network oracle of the single-event theorems (claimed when the clock never ran backwards: then
+   C11_net_multi_event_complete says nothing is dropped and every event's share is a single-event run), and over the
+   delivery log the rule "the handler did not run iff ts < the sender's remote log position" (rt_log_ok) *)
+let oracle_rt_netm cfg li a lines fail =
+  let get t k = match tok_val t k with Some v -> v | None -> "?" in
+  match lines with
+  | l1 :: l2 :: evl when l1 = "rtm done" && List.hd (toks_of l2) = "rtmd" ->
+    let t2 = toks_of l2 in
+    let tz = num a "tz" 0 in
+    let links = nat_links (parse_links (str a "links" "-")) in
+    let tso = id_list (str a "ts" "-") in
+    let rec nondecr = function x :: (y :: _ as r) -> x <= y && nondecr r | _ -> true in
+    let mono = nondecr tso in
+    let left = int_of_string (get t2 "left") in
+    let log = if get t2 "log" = "-" then [] else
+      List.map (fun e -> match String.split_on_char '-' e with
+                         | [f; t; _; ts; h] -> ((nat_of_int (int_of_string f), nat_of_int (int_of_string t)),
+                                                (nat_of_int (int_of_string ts), nat_of_int (int_of_string h)))
+                         | _ -> failwith "bad log entry") (String.split_on_char '.' (get t2 "log")) in
+    if left <> 0 then fail (Printf.sprintf "step=%d net-not-quiescent left=%d" li left) else begin
+      if not (rt_net_pre_b cfg (nat_of_int tz)) then fail (Printf.sprintf "step=%d generator-precondition" li);
+      if not (rt_log_ok log) then
+        fail (Printf.sprintf "step=%d multi-event-stale-rule (handler ran / did not run against ts < remote log position) log=%s" li (get t2 "log"));
+      if mono then
+        List.iter (fun l ->
+          let t = toks_of l in
+          if List.hd t <> "rtme" then fail (Printf.sprintf "step=%d malformed-observation" li) else begin
+            let s = int_of_string (get t "s") and deliv = int_of_string (get t "deliv") in
+            let proc = id_list (get t "proc") in
+            let k = int_of_nat (rt_net_oracle cfg links (nat_of_int tz) (nat_of_int s) (nat_of_int deliv) (List.map nat_of_int proc)) in
+            if k <> 0 then
+              fail (Printf.sprintf "step=%d netclause=%d multi-event-%s ev=%s ts=%s s=%d deliv=%d proc=%s" li k
+                      (match k with 1 -> "processed-twice" | 2 -> "too-many-deliveries" | _ -> "incomplete")
+                      (get t "ev") (str a "ts" "-") s deliv (get t "proc"))
+          end) evl
+    end
+  | _ -> fail (Printf.sprintf "step=%d net-run-aborted" li)
+
 (* oracle: the Gallina check [rt_oracle] over every observed step of the IMPLEMENTATION trace *)
 let oracle_c11_case script trace =
   let zones = ref [] and cfg = ref [] in
@@ -152,6 +193,16 @@ let oracle_c11_case script trace =
          tr := rest; oracle_rt_net !cfg li a l1 l2 fail
        | l1 :: _ when is_bad_line l1 -> fail (Printf.sprintf "step=%d crash %s" li l1); tr := []
        | _ -> fail (Printf.sprintf "step=%d missing-observation" li); tr := [])
+    | Some ("rt_netm", a) ->
+      let n = List.length (id_list (str a "s" "-")) + 2 in
+      let rec take k l = if k = 0 then ([], l) else match l with [] -> ([], []) | x :: r -> let (a, b) = take (k - 1) r in (x :: a, b) in
+      (match !tr with
+       | l1 :: _ when is_bad_line l1 -> fail (Printf.sprintf "step=%d crash %s" li l1); tr := []
+       | _ ->
+         let (mine, rest) = take n !tr in
+         if List.length mine < n || List.exists is_bad_line mine then begin
+           fail (Printf.sprintf "step=%d %s" li (if List.exists is_bad_line mine then "crash " ^ List.find is_bad_line mine else "missing-observation")); tr := []
+         end else begin tr := rest; oracle_rt_netm !cfg li a mine fail end)
     | Some ("rt_step", a) ->
       (match !tr with
        | l1 :: l2 :: rest when not (is_bad_line l1) && not (is_bad_line l2) ->
@@ -189,4 +240,5 @@ let () =
   register_op "rt_step" op_rt_step;
   register_op "rt_reload" op_rt_reload;
   register_op "rt_net" op_rt_net;
+  register_op "rt_netm" op_rt_netm;
   register_oracle "C11" oracle_c11_case
